@@ -1,5 +1,7 @@
 import MidnightZK.Proofs.C15.Batch
 import MidnightZK.Proofs.C15.Accumulator
+import MidnightZK.Proofs.C15.Tree
+import MidnightZK.Proofs.C15.Maps
 import Mathlib.Data.ZMod.Basic
 /-!
 # C15 — batching and accumulation accept exactly the all-valid batches
@@ -674,6 +676,311 @@ theorem accumulate_total (hash : List F → F) (enc : G → List F) (accs : List
   · cases accs <;> simp [Accumulator.accumulate]
   · intro a; simp [Accumulator.accumulate, accumulateLoop]
 
+
+/-! ## Trees of `DualMSM::scale` / `DualMSM::add_msm` of any shape -/
+
+/-- **`guard_tree_eval`**: whatever the shape of a sequence of `scale` / `add_msm` calls (a guard
+may be added to a guard that is itself the result of such calls), the defect `τ • L − R` of the
+guard produced is `Σ cᵢ • δ(leafᵢ)`, where `cᵢ` is the product of the factors of the `scale` calls
+applied after leaf `i` entered — the polynomial in the challenges the model predicts
+(`GuardTree.leaves`). By induction over the operation tree. -/
+theorem guard_tree_eval (τ : F) (t : GuardTree F G) :
+    defect τ t.run = (t.leaves.map (fun cd => cd.1 • defect τ cd.2)).sum :=
+  guardTree_defect τ t
+
+/-- The same at the level of the data structure: each channel of the guard produced consists of
+the leaves' channels in leaf order, every scalar multiplied by its leaf's coefficient. -/
+theorem guard_tree_struct (t : GuardTree F G) :
+    t.run.left = t.leaves.flatMap (fun cd => cd.2.left.scale cd.1) ∧
+    t.run.right = t.leaves.flatMap (fun cd => cd.2.right.scale cd.1) :=
+  guardTree_struct t
+
+/-- `check` of the guard a tree produces decides `Σ cᵢ • δᵢ = 0`. -/
+theorem guard_tree_check_iff (τ : F) (t : GuardTree F G) :
+    t.run.check τ = true ↔ (t.leaves.map (fun cd => cd.1 • defect τ cd.2)).sum = 0 := by
+  rw [DualMsm.check_iff, guard_tree_eval]
+
+/-- **Completeness for every shape and every factor**: if every leaf passes its own check, so does
+the guard produced. -/
+theorem guard_tree_complete (τ : F) (t : GuardTree F G)
+    (h : ∀ cd ∈ t.leaves, cd.2.check τ = true) : t.run.check τ = true := by
+  rw [guard_tree_check_iff]
+  apply List.sum_eq_zero
+  intro x hx
+  obtain ⟨cd, hcd, rfl⟩ := List.mem_map.mp hx
+  rw [(DualMsm.check_iff τ cd.2).mp (h cd hcd), smul_zero]
+
+/-- **Soundness for every shape, with the count**: take any shape of calls in which every `scale`
+uses the same challenge `r` (`t.withScale r`). If the numbers of `scale` calls above the leaves are
+pairwise distinct and at most `D`, and some leaf fails its own check, then the challenges at which
+the guard produced passes all lie in one set of at most `D` elements. -/
+theorem guard_tree_sound_count (τ : F) (t : GuardTree F G)
+    (hnd : (t.expLeaves.map (·.1)).Nodup) (D : Nat) (hD : ∀ kd ∈ t.expLeaves, kd.1 ≤ D)
+    (hbad : ∃ kd ∈ t.expLeaves, kd.2.check τ = false) :
+    ∃ bad : Finset F, bad.card ≤ D ∧ ∀ r, (t.withScale r).run.check τ = true → r ∈ bad := by
+  obtain ⟨kd, hkd, hb⟩ := hbad
+  have hne : ∃ x ∈ expDefects τ t, x.2 ≠ 0 := by
+    refine ⟨(kd.1, defect τ kd.2), List.mem_map.mpr ⟨kd, hkd, rfl⟩, fun h0 => ?_⟩
+    rw [(DualMsm.check_iff τ kd.2).mpr h0] at hb
+    exact absurd hb (by simp)
+  have hnd' : ((expDefects τ t).map (·.1)).Nodup := by
+    simpa [expDefects, List.map_map, Function.comp_def] using hnd
+  have hD' : ∀ x ∈ expDefects τ t, x.1 ≤ D := by
+    intro x hx
+    obtain ⟨y, hy, rfl⟩ := List.mem_map.mp hx
+    exact hD y hy
+  obtain ⟨bad, hcard, hmem⟩ := powCombo_bad_set (F := F) (expDefects τ t) hnd' D hD' hne
+  refine ⟨bad, hcard, fun r hr => hmem r ?_⟩
+  have := guardTree_defect_uniform τ r (t.withScale r) (withScale_allScales r t)
+  rw [expDefects, withScale_expLeaves] at this
+  unfold expDefects
+  rw [← this]
+  exact (DualMsm.check_iff τ _).mp hr
+
+/-- **Distinct powers are necessary** (the attack of seed C15-1, where every incoming guard was
+scaled by `r` instead of the running one: coefficients `1, r, r, …, r`): if two leaves sit under
+the same number of `scale` calls, opposite defects at those two leaves — everything else valid —
+cancel at EVERY challenge. -/
+theorem repeated_exponent_cancels (r : F) (k : Nat) (d : G) (l1 l2 l3 : List (Nat × G))
+    (h1 : ∀ kd ∈ l1, kd.2 = 0) (h2 : ∀ kd ∈ l2, kd.2 = 0) (h3 : ∀ kd ∈ l3, kd.2 = 0) :
+    powCombo r (l1 ++ (k, d) :: l2 ++ (k, -d) :: l3) = 0 :=
+  powCombo_repeated_cancels r k d l1 l2 l3 h1 h2 h3
+
+/-- The loop of `batch_verify` IS such a tree: all factors are `r`, and member `i` of `n` sits
+under `n − 1 − i` calls of `scale` — pairwise distinct exponents, the largest is `n − 1`. -/
+theorem horner_is_tree (r : F) (g : DualMsm F G) (gs : List (DualMsm F G)) :
+    hornerFold r (g :: gs) = some (hornerTree r g gs).run ∧
+    (hornerTree r g gs).AllScales r ∧
+    (hornerTree r g gs).expLeaves = (List.range (gs.length + 1)).reverse.zip (g :: gs) := by
+  refine ⟨?_, ?_, ?_⟩
+  · simp only [hornerFold, hornerTree, foldl_tree_run]
+    rfl
+  · exact foldl_tree_allScales r gs (.leaf g) trivial
+  · simp only [hornerTree, foldl_tree_expLeaves, GuardTree.expLeaves, List.map_cons, List.map_nil,
+      zero_add]
+    rw [List.range_succ, List.reverse_append]
+    simp
+
 end
+
+/-- Non-vacuity: a tree that is not a chain (`(V·3 + X)·2 + (W + X·4)`), its predicted leaves, and
+the shape of seed C15-1 (`V + r·X + r·X'` with opposite defects) accepted at every challenge. -/
+example : (GuardTree.add (.scale (.add (.scale (.leaf gV) 3) (.leaf gX)) 2)
+      (.add (.leaf gW) (.scale (.leaf gX) (4 : K)))).leaves.map (·.1) = [1, 2, 1, 4] := by decide
+example : ∀ r : K, (GuardTree.add (.add (.leaf gV) (.scale (.leaf gX) r))
+    (.scale (.leaf (⟨[⟨1, 1, .custom "π"⟩], [⟨1, 1, .noLabel⟩]⟩ : DualMsm K K)) r)).run.check 2 = true := by
+  decide
+example : (GuardTree.add (.scale (.add (.scale (.leaf gV) (0 : K)) (.leaf gX)) 0) (.leaf gW)).expLeaves.map (·.1)
+    = [2, 1, 0] := by decide
+
+/-- Non-vacuity and tightness of `guard_tree_sound_count`: the shape `X·r + X` (exponents `1, 0`,
+`D = 1`, both leaves failing) is accepted at exactly one challenge, `r = −1`. -/
+example : ((GuardTree.add (.scale (.leaf gX) (0 : K)) (.leaf gX)).expLeaves.map (·.1)).Nodup ∧
+    (∃ kd ∈ (GuardTree.add (.scale (.leaf gX) (0 : K)) (.leaf gX)).expLeaves, kd.2.check 2 = false) ∧
+    (∀ r : K, ((GuardTree.add (.scale (.leaf gX) (0 : K)) (.leaf gX)).withScale r).run.check 2 = true
+      ↔ r = 4) := by decide
+
+section
+variable {F G : Type} [Field F] [DecidableEq F] [AddCommGroup G] [Module F G] [DecidableEq G]
+
+/-! ## Fixed-base maps of several keys -/
+
+/-- **`accumulate_with_r_spec`**: for ARBITRARY key sets of the two maps of fixed-base scalars
+(overlapping, disjoint, nested, empty), `Msm::accumulate_with_r(self, other, r)` leaves under every
+name `k` exactly `self[k] + r·other[k]` / `self[k]` / `r·other[k]` / nothing, according to which of
+the two maps has the name, and the result is again a key-sorted map. (Seed C15-2 inserted
+`other[k]` unscaled when `self` had no entry.) -/
+theorem accumulate_with_r_spec (a b : Msm F G) (r : F) (ha : KeySorted a.fixed)
+    (hb : KeySorted b.fixed) :
+    KeySorted (a.accumulateWithR b r).fixed ∧
+    (∀ k, bmGet (a.accumulateWithR b r).fixed k = mergeVal r (bmGet a.fixed k) (bmGet b.fixed k)) ∧
+    (a.accumulateWithR b r).terms = a.terms ++ b.terms.map (fun t => (t.1 * r, t.2)) := by
+  obtain ⟨h1, h2⟩ := foldl_upsert_spec r b.fixed hb a.fixed ha
+  exact ⟨h1, h2, rfl⟩
+
+/-- Non-vacuity: two key-sorted maps with overlapping key sets. -/
+example : KeySorted [("-G", (1 : K)), ("vkA_fixed_com_1", 2)] ∧
+    KeySorted [("vkA_fixed_com_1", (1 : K)), ("vkA_fixed_com_10", 4), ("vkB_perm_com_0", 3)] := by
+  unfold KeySorted; decide
+
+example : mergeVal (3 : K) (some 1) (some 2) = some 2 ∧ mergeVal (3 : K) none (some 2) = some 1 ∧
+    mergeVal (3 : K) (some 1) none = some 1 ∧ mergeVal (3 : K) none none = none := by decide
+
+/-- **`from_dual_msm`, name by name, duplicates included**: whenever the conversion does not
+panic, each side of the accumulator keeps exactly the terms whose label is not a fixed-base label
+(in order), and under every name it holds the SUM of the scalars of all the terms filed under
+that name — `nothing` if there is none — in a key-sorted map. A label that occurs several times
+(sum of guards under one key) therefore contributes all its scalars (commit 348977f; the pinned
+code kept the last one). -/
+theorem from_dual_msm_spec (d : DualMsm F G) (pfx : String) (fb : List (String × G))
+    (a : Accumulator F G) (h : fromDualMsm d pfx fb = some a) :
+    (KeySorted a.lhs.fixed ∧ a.lhs.terms = varTerms pfx d.left ∧
+      ∀ name, bmGet a.lhs.fixed name =
+        if nameScalars pfx d.left name = [] then none else some (nameScalars pfx d.left name).sum) ∧
+    (KeySorted a.rhs.fixed ∧ a.rhs.terms = varTerms pfx d.right ∧
+      ∀ name, bmGet a.rhs.fixed name =
+        if nameScalars pfx d.right name = [] then none else some (nameScalars pfx d.right name).sum) := by
+  unfold fromDualMsm at h
+  cases h1 : processMsm pfx fb d.left ⟨[], []⟩ with
+  | none => simp [h1] at h
+  | some l =>
+    cases h2 : processMsm pfx fb d.right ⟨[], []⟩ with
+    | none => simp [h1, h2] at h
+    | some r =>
+      simp only [h1, h2, Option.some.injEq] at h
+      subst h
+      have s0 : KeySorted ([] : List (String × F)) := List.Pairwise.nil
+      obtain ⟨l1, l2, l3⟩ := processMsm_names pfx fb d.left ⟨[], []⟩ l h1 s0
+      obtain ⟨r1, r2, r3⟩ := processMsm_names pfx fb d.right ⟨[], []⟩ r h2 s0
+      refine ⟨⟨l1, by simpa using l2, fun name => ?_⟩, ⟨r1, by simpa using r2, fun name => ?_⟩⟩
+      · rw [l3 name]; simp only [bmGet]; exact addScalars_none _
+      · rw [r3 name]; simp only [bmGet]; exact addScalars_none _
+
+/-- The in-circuit `AssignedMsm::accumulate_with_r` (`other.scale(r)` — every scalar and fixed-base
+scalar times `r` — followed by `add_msm`, which adds into occupied entries and inserts into vacant
+ones) computes, value for value and in the same order, what the off-circuit
+`Msm::accumulate_with_r` computes. -/
+theorem assigned_accumulate_with_r_eq (a b : Msm F G) (r : F) :
+    a.aAccumulateWithR b r = a.accumulateWithR b r :=
+  Msm.aAccumulateWithR_eq a b r
+
+/-- `verifier/utils.rs: powers(x, n)` returns `[x⁰, x¹, …, x^{n−1}]` (and `[1]` for `n = 0`). -/
+theorem powers_spec (x : F) (n : Nat) :
+    aPowers x n = 1 :: (List.range (n - 1)).map (fun j => x ^ (1 + j)) := by
+  have := aPowers_go_eq x (n - 1) 1
+  rw [pow_one] at this
+  rw [aPowers, this]
+
+/-- **In-circuit and off-circuit accumulation agree**: `AssignedAccumulator::accumulate` on the
+values of its cells (powers from `powers`, `zip(rs).skip(1)`, member order) returns the accumulator
+`Accumulator::accumulate` returns — so every theorem about the latter (`accumulate_complete`,
+`accumulate_sound_count`) holds for the values the circuit computes. -/
+theorem assigned_accumulate_eq (hash : List F → F) (enc : G → List F)
+    (accs : List (Accumulator F G)) :
+    Accumulator.aAccumulate hash enc accs = Accumulator.accumulate hash enc accs :=
+  Accumulator.aAccumulate_eq hash enc accs
+
+/-- The soundness count of `accumulate` survives `collapse`. -/
+theorem accumulate_collapse_sound_count (τ : F) (fb : List (String × G)) (enc : G → List F)
+    (accs : List (Accumulator F G)) (hd : ∀ x ∈ accs, x.Defined fb)
+    (hbad : ∃ x ∈ accs, x.check τ fb = some false) :
+    ∃ bad : Finset F, bad.card ≤ accs.length - 1 ∧
+      ∀ (hash : List F → F) out, Accumulator.accumulate hash enc accs = some out →
+        out.collapse.check τ fb = some true → hash (accumulateHashInput enc accs) ∈ bad := by
+  obtain ⟨bad, hc, hm⟩ := accumulate_sound_count τ fb enc accs hd hbad
+  refine ⟨bad, hc, fun hash out ho hchk => hm hash out ho ?_⟩
+  rwa [collapse_preserves_check] at hchk
+
+/-- The committed-instance form of an accumulator carries the same field elements as the plain
+public-input form, re-partitioned: normal part = everything of `lhs` and the bases of `rhs`,
+committed part = the scalars of `rhs` (variable, then fixed in key order). -/
+theorem as_public_input_committed_partition (enc : G → List F) (a : Accumulator F G) :
+    (a.asPublicInputCommitted enc).1 ++ (a.asPublicInputCommitted enc).2 = a.asPublicInput enc := by
+  simp [Accumulator.asPublicInputCommitted, Msm.asPublicInputCommitted, Accumulator.asPublicInput,
+    Msm.asPublicInput, List.append_assoc]
+
+/-! ## Totality of every entry point -/
+
+/-- **Empty and mismatched inputs of every entry point**: the answer is a value, and it is the
+conjunction over the empty set (accept) or the documented error:
+* `batch_verify` of no proofs is `Ok`, and so is the reference verdict;
+* `Guard::batch_verify` of no guards is `Ok`; different lengths give `OpeningError`;
+* `check` of an accumulator with no terms at all is `true` (`τ • 0 = 0`), for every trapdoor and
+  every map of fixed bases;
+* `accumulate` of an empty slice is the one input without a value: both the off-circuit and the
+  in-circuit function index `accs[0]` (recorded as a known finding; one accumulator is returned
+  unchanged). -/
+theorem entry_points_total (τ r : F) (fb : List (String × G)) (hash : List F → F)
+    (enc : G → List F) :
+    batchVerify τ 0 0 ([] : List (Member F G)) r = .ok () ∧
+    batchVerdict τ 0 0 ([] : List (Member F G)) = .ok () ∧
+    guardBatchVerify ([] : List (DualMsm F G)) ([] : List F) = .ok () ∧
+    (∀ (gs : List (DualMsm F G)) (ps : List F), gs.length ≠ ps.length →
+      guardBatchVerify gs ps = .error .openingError) ∧
+    (⟨⟨[], []⟩, ⟨[], []⟩⟩ : Accumulator F G).check τ fb = some true ∧
+    Accumulator.accumulate hash enc ([] : List (Accumulator F G)) = none ∧
+    Accumulator.aAccumulate hash enc ([] : List (Accumulator F G)) = none := by
+  refine ⟨?_, ?_, ?_, ?_, ?_, rfl, rfl⟩
+  · simp [batchVerify, collectGuards, hornerFold]
+  · simp [batchVerdict, collectGuards]
+  · simp [guardBatchVerify, verifyEach]
+  · intro gs ps h; simp [guardBatchVerify, h]
+  · simp [Accumulator.check, Msm.eval, fixedTerms, msmSum]
+
+end
+
+/-- Non-vacuity of `from_dual_msm_spec`: the guard `3·gP + gP` (every fixed label twice). -/
+example : nameScalars "vk" ((gP.scale 3).addMsm gP).right "vk_fixed_com_0" = [1, 2] ∧
+    nameScalars "vk" ((gP.scale 3).addMsm gP).right "-G" = [4, 3] ∧
+    nameScalars "vk" ((gP.scale 3).addMsm gP).right "vk_fixed_com_1" = [] ∧
+    (varTerms "vk" ((gP.scale 3).addMsm gP).right).length = 2 := by decide
+
+/-! ## Global order of the transcript operations of `batch_verify` -/
+
+private theorem go_squeeze_mem (ms : List MemberTrace) :
+    ∀ i, 1 ≤ i → (⟨0, 2, 0⟩ : GEvent) ∈ globalSchedule.go i ms → ∀ m ∈ ms, 3 ≤ m.stage := by
+  induction ms with
+  | nil => intro i _ _ m hm; simp at hm
+  | cons m rest ih =>
+    intro i hi hmem x hx
+    have hne : ¬ (0 = i) := by omega
+    have hown : (⟨0, 2, 0⟩ : GEvent) ∉
+        (⟨i, 0, 0⟩ :: m.trace.map (fun kl => (⟨i, kl.1, kl.2⟩ : GEvent))) := by
+      intro hc
+      rcases List.mem_cons.mp hc with h1 | h1
+      · simp [GEvent.mk.injEq, hne] at h1
+      · obtain ⟨kl, _, hk⟩ := List.mem_map.mp h1
+        simp [GEvent.mk.injEq] at hk
+        omega
+    unfold globalSchedule.go at hmem
+    simp only [] at hmem
+    split at hmem
+    · simp at hmem
+    · split at hmem
+      · exact absurd hmem hown
+      · split at hmem
+        · rcases List.mem_append.mp hmem with h | h
+          · exact absurd h hown
+          · simp [GEvent.mk.injEq, hne] at h
+        · next hs0 hs1 hs2 =>
+          rcases List.mem_append.mp hmem with h | h
+          · rcases List.mem_append.mp h with h' | h'
+            · exact absurd h' hown
+            · simp [GEvent.mk.injEq, hne] at h'
+          · rcases List.mem_cons.mp hx with hx1 | hx1
+            · rw [hx1]; omega
+            · exact ih (i + 1) (by omega) h x hx1
+
+/-- **`r` is squeezed after EVERY member's contribution, for every batch size**: when all members
+go through, the hasher operations of `batch_verify` are `init` of the batching transcript, a
+middle part, and the squeeze of `r` as the very LAST operation; the middle part contains, for every
+member `j`, the complete contiguous block *init of its transcript — the operations of `prepare`
+(key representation, instances, proof elements) — squeeze of its summary — absorption of the
+summary (32 bytes) into the batching transcript*; and the batching transcript sees exactly
+`init, n absorptions, squeeze`. -/
+theorem global_schedule_r_after_all (ms : List MemberTrace) (h : ∀ m ∈ ms, 3 ≤ m.stage) :
+    ∃ mid, globalSchedule ms = ⟨0, 0, 0⟩ :: mid ++ [⟨0, 2, 0⟩] ∧
+      (∀ j (hj : j < ms.length), memberBlock (j + 1) ms[j] <:+: mid) ∧
+      mid.filter (fun e => e.who = 0) = List.replicate ms.length ⟨0, 1, summaryBytes⟩ := by
+  obtain ⟨l, h1, h2, h3⟩ := globalSchedule_go_through ms h 1
+  refine ⟨l, by rw [globalSchedule, h1]; rfl, ?_, h3 (by omega)⟩
+  intro j hj
+  have := h2 j hj
+  rwa [Nat.add_comm] at this
+
+/-- Conversely, the squeeze of `r` happens only if every member went through (`prepare`
+succeeded, summary absorbed, no trailing bytes): an early exit never squeezes. -/
+theorem global_schedule_squeeze_only_after_all (ms : List MemberTrace)
+    (h : (⟨0, 2, 0⟩ : GEvent) ∈ globalSchedule ms) : ∀ m ∈ ms, 3 ≤ m.stage := by
+  unfold globalSchedule at h
+  rcases List.mem_cons.mp h with h1 | h1
+  · simp [GEvent.mk.injEq] at h1
+  · exact go_squeeze_mem ms 1 (by omega) h1
+
+example : globalSchedule [⟨3, [(1, 32), (2, 0)]⟩, ⟨3, [(1, 48)]⟩]
+    = [⟨0, 0, 0⟩, ⟨1, 0, 0⟩, ⟨1, 1, 32⟩, ⟨1, 2, 0⟩, ⟨1, 2, 0⟩, ⟨0, 1, 32⟩,
+       ⟨2, 0, 0⟩, ⟨2, 1, 48⟩, ⟨2, 2, 0⟩, ⟨0, 1, 32⟩, ⟨0, 2, 0⟩] := by decide
+example : globalSchedule [⟨3, []⟩, ⟨1, [(1, 48)]⟩, ⟨3, []⟩]
+    = [⟨0, 0, 0⟩, ⟨1, 0, 0⟩, ⟨1, 2, 0⟩, ⟨0, 1, 32⟩, ⟨2, 0, 0⟩, ⟨2, 1, 48⟩] := by decide
 
 end MidnightZK.C15
